@@ -441,10 +441,17 @@ func (br *xmpReader) readSeqTags(xmp *XMP, parent Tag) (err error) {
 		}
 
 		if tag.isStartTag() {
+			// The items of an array are its rdf:li elements. Whatever else stands
+			// inside (the fields of a structured item, tags without a name) is
+			// read over: it is not a value of the array's property.
+			item := tag.Is(xmpns.RDFLi)
 			var attr Attribute
 			for br.hasAttribute() {
 				if attr, err = br.readAttribute(&tag); err != nil {
 					return
+				}
+				if !item {
+					continue
 				}
 
 				attr.parent = attr.self
@@ -457,6 +464,9 @@ func (br *xmpReader) readSeqTags(xmp *XMP, parent Tag) (err error) {
 
 			if tag.val, err = br.readTagValue(); err != nil {
 				return
+			}
+			if !item {
+				continue
 			}
 			tag.self = parent.parent
 			tag.parent = parent.self
